@@ -80,6 +80,13 @@ Definition accessors_ok (t : list (string * string)) : bool :=
           ["_BaseSession.read"; "_BaseSession._random_id"; "_BaseSession._random_branch_id";
            "_BaseSession._random_sequence_id"; "_BaseSession._auto_incrementing_name"].
 
+(** temporary views / tables that a reader or writer of ANY engine creates must be named freshly on every call (random
+    identifier, uuid, session counter): a name that is a function of the arguments only makes a second read of the same
+    source replace the object an earlier DataFrame still points to *)
+Definition temp_names_ok (t : list (string * string)) : bool :=
+  forallb (fun a => String.eqb (snd a) "fresh") t &&
+  existsb (fun a => String.eqb (fst a) "spark/readwriter.SparkDataFrameReader.load:tmp_view_key") t.
+
 (** what [accesses_ok] buys, stated: every write to an id registry is an [add] made by its own property, every write
     to the alias map an [append] made by [_add_alias_to_mapping] -- the registries are append-only *)
 Lemma accesses_ok_append_only t : accesses_ok t = true ->
